@@ -165,7 +165,11 @@ def sync_starts(tb, rec, root_hint=None):
 def oracle_c01(case, tb, rec, out):
     if not usable(rec, out):
         return
-    anc = gen.ancestors_map(tb)
+    # "transitively depends on ... executed in this invocation": chains all of whose members are
+    # executed now.  A cached experiment stands for its whole sub-graph (C02: "hidden behind a
+    # reusable cached result"), so a chain through a cached task imposes no ordering.
+    ex = set(rec["executed"])
+    anc = gen.ancestors_map({k: dict(v, deps=[d for d in v["deps"] if d in ex]) for k, v in tb.items() if k in ex})
     iv = intervals(rec)
     starts = []  # (task, t_start, t_end)
     for x, lst in iv.items():
@@ -175,7 +179,7 @@ def oracle_c01(case, tb, rec, out):
         starts.append((x, t, t))
         out["reach"]["c01_combine_starts"] = out["reach"].get("c01_combine_starts", 0) + 1
     for x, a, b in starts:
-        if x not in tb:
+        if x not in anc:
             continue
         for d in anc[x]:
             if d not in iv:
